@@ -80,6 +80,7 @@ static int cfg_print_pff_indent(cfg_t *cfg, FILE *fp,
 # include "cfg_verif_hooks.h"	/* supplied by the verification harness (-I), never by the normal build */
 #else
 # define CFG_VERIF_PI_ENTRY
+# define CFG_VERIF_LOOP(tag)
 #endif
 
 #ifndef HAVE_FMEMOPEN
@@ -363,7 +364,9 @@ DLLIMPORT cfg_opt_t *cfg_getnopt(cfg_t *cfg, unsigned int index)
 	if (!cfg)
 		return NULL;
 
-	for (i = 0; cfg->opts && cfg->opts[i].name; i++) {
+	for (i = 0; cfg->opts && cfg->opts[i].name; i++)
+		CFG_VERIF_LOOP(getnopt)
+	{
 		if (i == index)
 			return &cfg->opts[i];
 	}
@@ -653,6 +656,7 @@ DLLIMPORT int cfg_numopts(cfg_opt_t *opts)
 	int n;
 
 	for (n = 0; opts && opts[n].name; n++)
+		CFG_VERIF_LOOP(numopts)
 		/* do nothing */ ;
 	return n;
 }
